@@ -194,6 +194,7 @@ func (u *Unit) subSlice(v Val, lo, hi string) string {
 	if u.d.add("f:"+fn, fmt.Sprintf("(declare-fun %s (%s Int Int) %s)", fn, v.So, v.So)) {
 		u.d.axiom(fn+".len", fmt.Sprintf("(forall ((s %s) (a Int) (b Int)) (! (and (= (slen_%s (%s s a b)) (- b a)) (not (snil_%s (%s s a b)))) :pattern ((%s s a b))))", v.So, v.So, fn, v.So, fn, fn))
 		u.d.axiom(fn+".elem", fmt.Sprintf("(forall ((s %s) (a Int) (b Int) (i Int)) (! (= (select (sarr_%s (%s s a b)) i) (select (sarr_%s s) (+ a i))) :pattern ((select (sarr_%s (%s s a b)) i))))", v.So, v.So, fn, v.So, v.So, fn))
+		u.d.axiom(fn+".elemrev", fmt.Sprintf("(forall ((s %s) (a Int) (b Int) (k Int)) (! (= (select (sarr_%s (%s s a b)) (- k a)) (select (sarr_%s s) k)) :pattern ((%s s a b) (select (sarr_%s s) k))))", v.So, v.So, fn, v.So, fn, v.So))
 	}
 	return app(fn, v.T, lo, hi)
 }
@@ -341,6 +342,7 @@ func (u *Unit) eval(st *State, e ast.Expr) Val {
 	case *ast.FuncLit:
 		id := u.fresh("closure", "Int")
 		st.assume(app(">", id, "0"))
+		u.literalValue(st, x, id)
 		return Val{T: id, Ty: u.typeOf(x), So: "Int"}
 	case *ast.KeyValueExpr:
 		u.unsupported(x.Pos(), "key-value outside literal")
@@ -879,6 +881,7 @@ func (u *Unit) evalSelector(st *State, x *ast.SelectorExpr) Val {
 		case types.MethodVal:
 			// method value: opaque function value
 			id := u.fresh("methodval", "Int")
+			u.methodValue(st, x, sel, id)
 			return Val{T: id, Ty: u.typeOf(x), So: "Int"}
 		}
 		u.unsupported(x.Pos(), "selection kind %v", sel.Kind())
@@ -1186,7 +1189,9 @@ func (u *Unit) assign(st *State, lhs ast.Expr, v Val) {
 }
 
 func (u *Unit) bind(st *State, obj types.Object, v Val) {
-	if len(v.T) > 160 {
+	// long terms, and joins (ite) of aggregate values -- which would otherwise end up inside
+	// quantifier triggers, where solvers reject ite -- get a name
+	if len(v.T) > 160 || (strings.HasPrefix(v.T, "(ite ") && v.So != "Int" && v.So != "Bool" && v.So != "String") {
 		n := u.fresh(obj.Name(), v.So)
 		st.assume(sEq(n, v.T))
 		v.T = n
